@@ -473,5 +473,37 @@ def stubbed(lab):
     return outer(), d
 
 
-CORPUS = dict(stubbed=stubbed, sparse=sparse, two_runs_cleared=two_runs_cleared, late_wait=late_wait, norewind_section=norewind_section, configure_mid=configure_mid, count_norewind=count_norewind, declared=declared, double_stage=double_stage, failpause=failpause, defer_failpause=defer_failpause, count2=count2, scan2=scan2, scan3=scan3, rel_scan2=rel_scan2, list_scan2=list_scan2, grid2x2=grid2x2, adaptive=adaptive, tune=tune,
+def monitor_mid(lab):
+    """monitor ... unmonitor in the middle of a run, then more work, a second run without monitoring."""
+    from bluesky.utils import Msg
+
+    d = _std(lab)
+    sig, m = d["sig"], d["m1"]
+
+    def plan():
+        yield Msg("open_run")
+        yield Msg("checkpoint")
+        yield Msg("null", None, "before")
+        yield Msg("monitor", sig, name="sig_monitor")
+        yield Msg("checkpoint")
+        yield Msg("set", m, 1.0, group="g")
+        yield Msg("wait", None, group="g")
+        yield Msg("null", None, "monitored")
+        yield Msg("unmonitor", sig)
+        yield Msg("checkpoint")
+        yield Msg("null", None, "after")
+        yield Msg("close_run")
+        yield Msg("null", None, "between")
+        yield Msg("open_run")
+        yield Msg("checkpoint")
+        yield Msg("monitor", sig, name="sig_monitor")
+        yield Msg("null", None, "second")
+        yield Msg("set", m, 2.0, group="g")
+        yield Msg("wait", None, group="g")
+        yield Msg("close_run")
+
+    return plan(), d
+
+
+CORPUS = dict(monitor_mid=monitor_mid, stubbed=stubbed, sparse=sparse, two_runs_cleared=two_runs_cleared, late_wait=late_wait, norewind_section=norewind_section, configure_mid=configure_mid, count_norewind=count_norewind, declared=declared, double_stage=double_stage, failpause=failpause, defer_failpause=defer_failpause, count2=count2, scan2=scan2, scan3=scan3, rel_scan2=rel_scan2, list_scan2=list_scan2, grid2x2=grid2x2, adaptive=adaptive, tune=tune,
               fly1=fly1, bare=bare, cleanup=cleanup, staged_monitor=staged_monitor, nested_runs=nested_runs, flymon=flymon)
